@@ -42,7 +42,11 @@ def build(d):
 
 def demo(d):
     env = dict(os.environ, PYTHONPATH=os.path.join(d, "src"))
-    r = sh(["/venv/bin/python", os.path.join(src, "demo.py")], env=env, cwd=d, timeout=900)
+    # the demonstration runs from <copy>/seed/<X>/demo.py: some demonstrations locate the tree relative to themselves
+    dd = os.path.join(d, "seed", "X")
+    os.makedirs(dd, exist_ok=True)
+    shutil.copy(os.path.join(src, "demo.py"), dd)
+    r = sh(["/venv/bin/python", os.path.join(dd, "demo.py")], env=env, cwd=d, timeout=900)
     lines = [l for l in r.stdout.strip().splitlines() if l.strip() and "Warning" not in l and '"""' not in l]
     return r.returncode, (lines[-1] if lines else "")[:300]
 
